@@ -147,9 +147,31 @@ def run(ck):
     ck.require(len(bvars) == 1, "local bound to request.body() not found in writeRequest")
     BV = next(iter(bvars))
     bodyw = [e for e in wr.events("call") if e.get("op") == "<<" and any(a.get("v") == BV for a in e.get("args", []))]
-    tests = [b for b in wr.blocks.values() if b.term and b.term.get("k") == "if" and (b.term.get("core") or {}).get("root") == BV and "empty" in (b.term.get("cond") or "") and b.term.get("neg")]
-    ok = len(cl) == 1 and len(bodyw) == 1 and (BV + ".size()") in (cl[0].get("t") or "") and len(tests) == 2 and \
-        any(cfg.edge_dominates(wr, b.id, 0, cl[0]) for b in tests) and any(cfg.edge_dominates(wr, b.id, 0, bodyw[0]) for b in tests)
+    # both happen exactly on the edges that know the body is not empty: `if (!body.empty())` taken, or a bool local that holds that
+    # test (`const bool hasBody = !body.empty(); if (hasBody)`)
+    nonempty = []
+    for b in wr.blocks.values():
+        t_ = b.term
+        if not t_ or t_.get("k") != "if" or len(b.succs) != 2 or t_.get("cmp"):
+            continue
+        core = t_.get("core") or {}
+        direct = core.get("root") == BV and "empty" in (t_.get("cond") or "")
+        via = None
+        if not direct and core.get("v"):
+            dv = [d_ for d_ in wr.events("decl") if d_.get("var") == core["v"] and (d_.get("type") or "").replace("const ", "").strip() == "bool"]
+            it = ((dv[0].get("init") or {}).get("t") or "").replace(" ", "") if dv else ""
+            if it in ("!%s.empty()" % BV, "!(%s.empty())" % BV):
+                via = True        # the local is true when the body is not empty
+            elif it in ("%s.empty()" % BV,):
+                via = False
+        if direct:
+            k_ne = 0 if t_.get("neg") else 1          # edge on which empty() is false
+            nonempty.append((b.id, k_ne))
+        elif via is not None:
+            truth_edge = 1 if t_.get("neg") else 0    # edge on which the local is true
+            nonempty.append((b.id, truth_edge if via else 1 - truth_edge))
+    ok = len(cl) == 1 and len(bodyw) == 1 and (BV + ".size()") in (cl[0].get("t") or "") and \
+        any(cfg.edge_dominates(wr, bid, k_, cl[0]) for bid, k_ in nonempty) and any(cfg.edge_dominates(wr, bid, k_, bodyw[0]) for bid, k_ in nonempty)
     ck.ob("C05-R2", "client-writeRequest/content-length==body", ok, wr.loc, wr, "Content-Length: body.size() and `<< body`, both under !body.empty()")
 
     # ---------------- R3 ----------------
